@@ -90,11 +90,12 @@ def gen_cases(rng, tier):
                               "sb": b_["states"][0]["name"], "use_pv": rng.random() < 0.5})
             if a["T"]["kind"] == "free" or b_["t0"]["kind"] == "free":
                 couplings.append({"cid": 950 + k, "from": k, "to": k + 1, "time": True})
+        tmpl_bspline = rng.choice([1, 2]) if (mode == "clone" and rng.random() < 0.3) else 0
         late = rng.random() < 0.25
         if late:
             # the last stage is added after a first transcription, with nothing else declared afterwards
             couplings = [c for c in couplings if c["to"] != nst - 1 and c["from"] != nst - 1]
-        cases.append({"mode": mode, "stages": stages, "couplings": couplings, "pp": ocpgen.rnd(rng, 0.3, 2.0), "late": late,
+        cases.append({"mode": mode, "stages": stages, "couplings": couplings, "pp": ocpgen.rnd(rng, 0.3, 2.0), "late": late, "tmpl_bspline": tmpl_bspline,
                       "template_h": template_h if mode == "clone" else None,
                       "seed": rng.getrandbits(32), "solve": rng.random() < 0.3})
     return cases
@@ -193,6 +194,11 @@ def build_multistage(case):
         tmpl = rockit.Stage(**kw)
         tb = build.Built(None, tmpl, dict(base_spec, t0=tmpl_h["t0"], T=tmpl_h["T"]))
         C.call("declare(template)", declare_stage_content, tb)
+        if case.get("tmpl_bspline"):
+            # a B-spline variable in the template: every clone gets its own signal
+            wb = C.call("variable(bspline, template)", tmpl.variable, grid="bspline", order=case["tmpl_bspline"])
+            tmpl.add_objective(tmpl.sum(wb ** 2))
+            case["_wb"] = wb
         tmpl_snap = template_snapshot(tmpl)
         res["counters"]["clone_templates"] += 1
         for k, sp in enumerate(stages):
@@ -242,6 +248,11 @@ def run_case(case):
         view = C.call("transcribe", nlp.NlpView, ocp)
         rbs = [C.call("sample(stage)", coords.ReadBack, b, view, engine.want_grids(b.spec), b.stage) for b in builts]
         Fpv = ca.Function("pv", [view.x, view.p], [ocp.value(pv)])
+        Fwb = None
+        if case.get("_wb") is not None:
+            Fwb = ca.Function("wb", [view.x, view.p], [ca.MX(C.call("sample(bspline, clone)", b.stage.sample, case["_wb"],
+                                                                      grid="control")[1]) for b in builts])
+            res["counters"]["bspline_in_template"] = 1
     except C.RockitRaised as e:
         feat = mode
         if mode == "clone":
@@ -284,6 +295,11 @@ def run_case(case):
         # objective
         try:
             fe = sum(r.objective() for r in refs) + case["pp"] * pvv ** 2 + 0.3 * pvv
+            if Fwb is not None:
+                wv = Fwb(w, view.p0)
+                wv = [wv] if not isinstance(wv, (list, tuple)) else wv
+                for b_, a_ in zip(builts, wv):
+                    fe += float(np.sum(np.array(a_, dtype=float).reshape(-1)[:b_.spec["method"]["N"]] ** 2))
         except Exception:
             continue
         res["evals"] += 1
